@@ -1,6 +1,7 @@
 package abci
 
 import (
+	"encoding/hex"
 	"encoding/json"
 	"fmt"
 	"os"
@@ -16,14 +17,17 @@ import (
 
 	"github.com/pokt-network/pocket-core/app"
 	"github.com/pokt-network/pocket-core/codec"
+	"github.com/pokt-network/pocket-core/crypto"
 	sdk "github.com/pokt-network/pocket-core/types"
 	appsTypes "github.com/pokt-network/pocket-core/x/apps/types"
 	authTypes "github.com/pokt-network/pocket-core/x/auth/types"
 	govTypes "github.com/pokt-network/pocket-core/x/gov/types"
 	nodesTypes "github.com/pokt-network/pocket-core/x/nodes/types"
+	pocketTypes "github.com/pokt-network/pocket-core/x/pocketcore/types"
 
 	"verif/harness"
 	"verif/harness/chain"
+	rf "verif/harness/relayfactory"
 )
 
 // C43: exporting the application state at a height and initialising a new chain from that export yields the same
@@ -67,17 +71,162 @@ func TestC43ImportHelper(t *testing.T) {
 	}
 }
 
+// c43ClaimTry is one generated claim attempt of a block: selectors that are resolved against the chain state when the
+// block is about to run (which applications are staked, which nodes the session holds).
+type c43ClaimTry struct {
+	appSel, chainSel, back, nodeSel, total int
+}
+
+// c43Claim is a claim transaction that was put into a block.
+type c43Claim struct {
+	id     string // store identity: hex(servicer address | session header hash | evidence type byte)
+	desc   string
+	msg    pocketTypes.MsgClaim
+	height int64
+	txIdx  int
+	code   uint32
+}
+
+func claimID(m pocketTypes.MsgClaim) string {
+	et, _ := m.EvidenceType.Byte()
+	return hex.EncodeToString(append(append(append([]byte{}, m.FromAddress.Bytes()...), m.SessionHeader.Hash()...), et))
+}
+
+// c43MintClaim resolves a claim attempt against the state of node n for the block that will run at height h and returns
+// the signed MsgClaim transaction of a servicer that is in the chosen session ("" reason when built).
+func c43MintClaim(n *chain.Node, w *chain.World, keys []crypto.PrivateKey, client crypto.PrivateKey, tr c43ClaimTry, h int64, serial int64) (tx []byte, cl c43Claim, skip string) {
+	pk := n.App.VerifPocketKeeper()
+	ctx := n.Ctx()
+	bps := pk.BlocksPerSession(ctx)
+	cur := ((h-1)/bps)*bps + 1
+	sbh := cur - int64(tr.back)*bps
+	if sbh < 1 {
+		return nil, cl, "no-ended-session"
+	}
+	sessCtx, err := ctx.PrevCtx(sbh)
+	if err != nil {
+		return nil, cl, "no-session-context"
+	}
+	endCtx, err := ctx.PrevCtx(sbh + pk.BlocksPerSession(sessCtx) - 1)
+	if err != nil {
+		return nil, cl, "no-session-context"
+	}
+	// applications staked at the session start, in key pool order
+	var appKeys []crypto.PrivateKey
+	for _, k := range keys {
+		if _, ok := pk.GetAppFromPublicKey(sessCtx, k.PublicKey().RawString()); ok {
+			appKeys = append(appKeys, k)
+		}
+	}
+	if len(appKeys) == 0 {
+		return nil, cl, "no-application"
+	}
+	ak := appKeys[tr.appSel%len(appKeys)]
+	a, _ := pk.GetAppFromPublicKey(sessCtx, ak.PublicKey().RawString())
+	if len(a.GetChains()) == 0 {
+		return nil, cl, "no-application"
+	}
+	ch := a.GetChains()[tr.chainSel%len(a.GetChains())]
+	snc := pk.SessionNodeCount(sessCtx)
+	header := rf.Header(ak.PublicKey(), ch, sbh)
+	hash, err := sessCtx.BlockHash(n.App.VerifCodec(), sessCtx.BlockHeight())
+	if err != nil {
+		return nil, cl, "no-session-context"
+	}
+	sess, serr := pocketTypes.NewSession(sessCtx, endCtx, n.App.VerifNodesKeeper(), header, hex.EncodeToString(hash), int(snc))
+	if serr != nil || len(sess.SessionNodes) == 0 {
+		return nil, cl, "no-session"
+	}
+	addr := sess.SessionNodes[tr.nodeSel%len(sess.SessionNodes)]
+	var nk crypto.PrivateKey
+	for _, k := range keys {
+		if chain.Addr(k).Equals(addr) {
+			nk = k
+		}
+	}
+	if nk == nil {
+		return nil, cl, "no-session"
+	}
+	total := int64(tr.total)
+	if m := pk.MinimumNumberOfProofs(sessCtx); total < m {
+		total = m
+	}
+	if max := pocketTypes.MaxPossibleRelays(a, snc).Int64(); total > max {
+		total = max
+	}
+	if total < 5 {
+		return nil, cl, "application-too-small"
+	}
+	ev := rf.EvidenceSet(rf.ProofParams{Token: rf.MintAAT(ak, client.PublicKey()), Client: client, ServicerPub: nk.PublicKey().RawString(), Chain: ch, SessionHeight: sbh}, int(total), 1000*serial+1)
+	tree := rf.BuildTree(sbh, ev)
+	msg := rf.NewMsgClaim(header, addr, tree)
+	cl = c43Claim{id: claimID(*msg), msg: *msg, height: h,
+		desc: fmt.Sprintf("claim %s for %s/%s session@%d total=%d root=%x", w.KeyName(nk), w.KeyName(ak), ch, sbh, total, msg.MerkleRoot.Hash[:4])}
+	return chain.SignTx(w.Spec.ChainID, msg, chain.DefaultFee, "", w.NextEntropy(), nk), cl, ""
+}
+
+const c43ClaimAbortSig = "C43/import/aborted-claim-with-expiration-height"
+
+func c43AbortSignature(msg string) string {
+	switch {
+	case strings.Contains(msg, "module account total does not equal the amount in each validator account"):
+		return "C43/import/aborted-node-pool-mismatch"
+	case strings.Contains(msg, "module account total does not equal the amount in each application account"):
+		return "C43/import/aborted-app-pool-mismatch"
+	case strings.Contains(msg, "Incorrect address length"):
+		return "C43/import/aborted-account-address-not-20-bytes"
+	case strings.Contains(msg, "validator has less than minimum stake"):
+		return "C43/import/aborted-node-below-minimum-stake-rejected"
+	case strings.Contains(msg, "application has less than minimum stake"):
+		return "C43/import/aborted-app-at-minimum-stake-rejected"
+	case strings.Contains(msg, "is not a recognized parameter"):
+		return "C43/import/aborted-acl-key-not-recognized"
+	case strings.Contains(msg, "the expiration height included in the claim message is invalid"):
+		return c43ClaimAbortSig
+	}
+	return "C43/import/aborted"
+}
+
 func TestC43(t *testing.T) {
 	work := os.Getenv("VERIF_WORK")
 	if work == "" {
 		work = t.TempDir()
 	}
+	// runImport initialises a fresh application from an exported genesis in a subprocess and returns its state view,
+	// or the abort reason.
+	runImport := func(genesis []byte) (map[string]map[string]string, string, error) {
+		gpath := filepath.Join(work, "c43-genesis.json")
+		opath := filepath.Join(work, "c43-view.json")
+		_ = os.Remove(opath)
+		if err := os.WriteFile(gpath, genesis, 0o644); err != nil {
+			t.Fatal(err)
+		}
+		cmd := exec.Command(os.Args[0], "-test.run", "^TestC43ImportHelper$", "-test.count=1")
+		cmd.Env = append(os.Environ(), envC43Genesis+"="+gpath, envC43Out+"="+opath, harness.EnvStats+"=", harness.EnvFailRec+"=")
+		outb, runErr := cmd.CombinedOutput()
+		vb, rerr := os.ReadFile(opath)
+		if runErr != nil || rerr != nil {
+			if runErr == nil {
+				runErr = rerr
+			}
+			return nil, abortReason(string(outb)), runErr
+		}
+		var got map[string]map[string]string
+		if err := json.Unmarshal(vb, &got); err != nil {
+			t.Fatalf("harness: bad view json: %v", err)
+		}
+		return got, "", nil
+	}
 	harness.Check(t, "C43",
 		"generated world + full-feature history (8-24 blocks: sends, node/app stake, edit, begin-unstake (records left unstaking at export), app transfer, param changes, DAO "+
-			"actions, downtime slash/jail); ExportAppState at the last height; a second application is initialised from the exported JSON in a subprocess; normalised views "+
+			"actions, downtime slash/jail; in 3 of 4 cases also MsgClaim transactions minted by the relay factory: 0-3 per block in the last 8 blocks, occasionally earlier (those expire before the "+
+			"export), each for a generated application / chain / ended session, signed by a servicer of that session (session node count 1-3), submitted inside the claim window or (sometimes) too late, "+
+			"never proved - so 0-4+ claims of different servicers/applications/chains/sessions are pending at the export height); ExportAppState at the last height. Export-side oracle: the node, application "+
+			"and claim records parsed from the exported JSON equal the exporting node's records, the claims being read by a raw prefix scan of the pocketcore store (not through Keeper.GetAllClaims) and "+
+			"matched against the submitted messages. Import side: a second application is initialised from the exported JSON in a subprocess; normalised views "+
 			"(non-empty account balances, supply, node records, application records, params of all modules incl. ACL/DAO owner/upgrade, claims) must be equal; an aborting import is a "+
-			"failed case. non-trivial = exported state holds an unstaking or jailed node/app and non-zero staking pools",
-		map[string]float64{"has-unstaking-or-jailed": 0.3},
+			"failed case. non-trivial = exported state holds an unstaking or jailed node/app and non-zero staking pools, or at least two pending claims",
+		map[string]float64{"has-unstaking-or-jailed": 0.3, "pending-claims>=2": 0.15, "pending-claims=0": 0.2},
 		func(rt *rapid.T, c *harness.Case) {
 			w := chain.GenWorld(rt)
 			// keep unstaking records alive until export: long unstaking time in half of the cases
@@ -97,12 +246,82 @@ func TestC43(t *testing.T) {
 				w.Spec.SetFeatures(f)
 				c.Label("no-acl-adding-features")
 			}
+			// claims: 1 case in 4 has none at all (the import of an export that holds claims aborts: keep exploring the
+			// import side); otherwise sessions hold 1-3 servicers
+			withClaims := rapid.IntRange(0, 3).Draw(rt, "withClaims") > 0
+			if withClaims {
+				snc := rapid.SampledFrom([]int64{1, 1, 2, 3}).Draw(rt, "sessionNodeCount")
+				if snc > int64(len(w.Nodes)) {
+					snc = int64(len(w.Nodes))
+				}
+				w.Spec.PocketParams.SessionNodeCount = snc
+				c.Label("with-claim-txs")
+			}
 			h := w.GenHistory(rt, 8, 24)
-			c.Opf("%s", w.Describe())
+			plan := make([][]c43ClaimTry, len(h.Blocks))
+			if withClaims {
+				for i := range h.Blocks {
+					k := rapid.SampledFrom([]int{0, 0, 0, 0, 1}).Draw(rt, "earlyClaims")
+					if i >= len(h.Blocks)-8 {
+						k = rapid.SampledFrom([]int{0, 1, 1, 2, 3}).Draw(rt, "lateClaims")
+					}
+					for j := 0; j < k; j++ {
+						plan[i] = append(plan[i], c43ClaimTry{appSel: rapid.IntRange(0, 7).Draw(rt, "claimApp"), chainSel: rapid.IntRange(0, 3).Draw(rt, "claimChain"),
+							back: rapid.SampledFrom([]int{1, 1, 1, 1, 2}).Draw(rt, "claimSessionsBack"), nodeSel: rapid.IntRange(0, 7).Draw(rt, "claimNode"),
+							total: rapid.IntRange(5, 9).Draw(rt, "claimTotal")})
+					}
+				}
+			}
+			c.Opf("%s sessionNodeCount=%d", w.Describe(), w.Spec.PocketParams.SessionNodeCount)
 			n := chain.NewNode(&w.Spec)
+			// a production node runs with its own servicer key registered (creates the node-global session / evidence caches)
+			sdir, err := os.MkdirTemp(work, "c43-servicer-")
+			if err != nil {
+				rt.Fatalf("mkdtemp: %v", err)
+			}
+			defer os.RemoveAll(sdir)
+			defer pocketTypes.CleanPocketNodes()
+			rf.RegisterServicer(chain.Key("c43-self"), sdir, 0)
+			client := chain.Key("c43-client")
+			var keyPool []crypto.PrivateKey
+			keyPool = append(keyPool, w.Nodes...)
+			keyPool = append(keyPool, w.Apps...)
+			keyPool = append(keyPool, w.Spare...)
+			keyPool = append(keyPool, w.Fresh...)
+			keyPool = append(keyPool, w.Accounts...)
+			var claims []*c43Claim
+			serial := int64(0)
 			for i, b := range h.Blocks {
-				n.RunBlock(b)
-				c.Opf("%s", chain.DescribeBlock(b, h.Txs[i]))
+				height := n.Height + 1
+				desc := chain.DescribeBlock(b, h.Txs[i])
+				b.Txs = append([][]byte{}, b.Txs...)
+				var mine []*c43Claim
+				for _, tr := range plan[i] {
+					serial++
+					tx, cl, skip := c43MintClaim(n, w, keyPool, client, tr, height, serial)
+					if skip != "" {
+						c.Label("claim-skipped-" + skip)
+						desc += fmt.Sprintf(" | (claim attempt app#%d chain#%d back=%d node#%d: %s)", tr.appSel, tr.chainSel, tr.back, tr.nodeSel, skip)
+						continue
+					}
+					cl.txIdx = len(b.Txs)
+					b.Txs = append(b.Txs, tx)
+					cp := cl
+					mine = append(mine, &cp)
+					desc += " | " + cl.desc
+				}
+				r := n.RunBlock(b)
+				for _, cl := range mine {
+					cl.code = r.Txs[cl.txIdx].Code
+					c.AddExtra(fmt.Sprintf("claim_tx_code_%d", cl.code), 1)
+					if cl.code == 0 {
+						c.Label("claim-accepted")
+					} else {
+						c.Label("claim-rejected")
+					}
+					claims = append(claims, cl)
+				}
+				c.Opf("%s", desc)
 			}
 			want := n.StateView()
 			interesting := false
@@ -120,15 +339,68 @@ func TestC43(t *testing.T) {
 				c.Label("has-unstaking-or-jailed")
 				c.NonTrivial()
 			}
+			// pending claims of the exporter (raw store scan inside StateView) against the submitted messages
+			{
+				np := len(want["claims"])
+				c.AddExtra("pending_claims_at_export", np)
+				switch {
+				case np == 0:
+					c.Label("pending-claims=0")
+				case np == 1:
+					c.Label("pending-claims=1")
+				default:
+					c.Label("pending-claims>=2")
+					c.NonTrivial()
+				}
+				latest := map[string]*c43Claim{}
+				for _, cl := range claims {
+					if cl.code == 0 {
+						latest[cl.id] = cl
+					}
+				}
+				froms, apps, chains, sessions := map[string]bool{}, map[string]bool{}, map[string]bool{}, map[int64]bool{}
+				for id, js := range want["claims"] {
+					cl := latest[id]
+					if cl == nil {
+						rt.Fatalf("harness: pending claim %s in the store was never submitted: %s", id, js)
+					}
+					var stored pocketTypes.MsgClaim
+					if err := app.Codec().UnmarshalJSON([]byte(js), &stored); err != nil {
+						rt.Fatalf("harness: stored claim does not parse back: %v", err)
+					}
+					exp := stored.ExpirationHeight
+					stored.ExpirationHeight = 0
+					if chain.MustJSON(stored) != chain.MustJSON(cl.msg) || exp <= n.Height {
+						rt.Fatalf("harness: pending claim read from the raw store differs from the accepted message (or is expired: %d at height %d): %s vs %s", exp, n.Height, js, chain.MustJSON(cl.msg))
+					}
+					froms[cl.msg.FromAddress.String()], apps[cl.msg.SessionHeader.ApplicationPubKey], chains[cl.msg.SessionHeader.Chain], sessions[cl.msg.SessionHeader.SessionBlockHeight] = true, true, true, true
+				}
+				if len(froms) > 1 {
+					c.Label("pending-claims-of-different-servicers")
+				}
+				if len(apps) > 1 || len(chains) > 1 || len(sessions) > 1 {
+					c.Label("pending-claims-of-different-sessions")
+				}
+				expired := 0
+				for id := range latest {
+					if _, ok := want["claims"][id]; !ok {
+						expired++
+					}
+				}
+				if expired > 0 {
+					c.Label("claim-expired-before-export")
+				}
+			}
 			exported, err := n.App.ExportAppState(n.Height, false, nil)
 			if err != nil {
 				c.Violation("C43/export/failed", "ExportAppState(%d) failed: %v", n.Height, err)
 				return
 			}
 			// Export-side oracle, independent of the import path: the exported JSON, parsed with the modules' own genesis
-			// types, must carry exactly the exporting node's node and application records (every field).
+			// types, must carry exactly the exporting node's node, application and pending claim records (every field).
+			var gs app.GenesisState
+			var pg pocketTypes.GenesisState
 			{
-				var gs app.GenesisState
 				if err := app.Codec().UnmarshalJSON(exported, &gs); err != nil {
 					c.Violation("C43/export/not-parseable", "exported app state does not parse: %v", err)
 					return
@@ -164,43 +436,54 @@ func TestC43(t *testing.T) {
 				if d := diffView(want["apps"], gotA); d != "" {
 					c.Violation("C43/export/app-records-differ-in-exported-json", "application records parsed from the exported genesis differ from the exporting node's records: %s", d)
 				}
-				c.AddExtra("exported_records_compared", len(gotN)+len(gotA))
-			}
-			gpath := filepath.Join(work, "c43-genesis.json")
-			opath := filepath.Join(work, "c43-view.json")
-			_ = os.Remove(opath)
-			if err := os.WriteFile(gpath, exported, 0o644); err != nil {
-				t.Fatal(err)
-			}
-			cmd := exec.Command(os.Args[0], "-test.run", "^TestC43ImportHelper$", "-test.count=1")
-			cmd.Env = append(os.Environ(), envC43Genesis+"="+gpath, envC43Out+"="+opath, harness.EnvStats+"=", harness.EnvFailRec+"=")
-			outb, runErr := cmd.CombinedOutput()
-			vb, rerr := os.ReadFile(opath)
-			if runErr != nil || rerr != nil {
-				msg := abortReason(string(outb))
-				sig := "C43/import/aborted"
-				switch {
-				case strings.Contains(msg, "module account total does not equal the amount in each validator account"):
-					sig = "C43/import/aborted-node-pool-mismatch"
-				case strings.Contains(msg, "module account total does not equal the amount in each application account"):
-					sig = "C43/import/aborted-app-pool-mismatch"
-				case strings.Contains(msg, "Incorrect address length"):
-					sig = "C43/import/aborted-account-address-not-20-bytes"
-				case strings.Contains(msg, "validator has less than minimum stake"):
-					sig = "C43/import/aborted-node-below-minimum-stake-rejected"
-				case strings.Contains(msg, "application has less than minimum stake"):
-					sig = "C43/import/aborted-app-at-minimum-stake-rejected"
-				case strings.Contains(msg, "is not a recognized parameter"):
-					sig = "C43/import/aborted-acl-key-not-recognized"
+				if err := app.Codec().UnmarshalJSON(gs[pocketTypes.ModuleName], &pg); err != nil {
+					c.Violation("C43/export/pocketcore-genesis-not-parseable", "exported pocketcore genesis does not parse: %v", err)
+					return
 				}
-				c.Violation(sig, "initialising a chain from the exported genesis aborted (%v): %s", runErr, msg)
-				return
+				gotC := map[string]string{}
+				for _, cl := range pg.Claims {
+					id := claimID(cl)
+					for _, dup := gotC[id]; dup; _, dup = gotC[id] {
+						id += "+duplicate"
+					}
+					gotC[id] = js(cl)
+				}
+				if len(pg.Claims) != len(want["claims"]) {
+					c.Violation("C43/export/claim-count-differs-in-exported-json", "the exported genesis carries %d claims, the exporting node's store holds %d pending claims", len(pg.Claims), len(want["claims"]))
+				} else if d := diffView(want["claims"], gotC); d != "" {
+					c.Violation("C43/export/claim-records-differ-in-exported-json", "claims parsed from the exported genesis differ from the pending claims in the exporting node's store (raw scan): %s", d)
+				}
+				c.AddExtra("exported_records_compared", len(gotN)+len(gotA)+len(gotC))
+				c.AddExtra("exported_claims_compared", len(gotC))
 			}
-			var got map[string]map[string]string
-			if err := json.Unmarshal(vb, &got); err != nil {
-				t.Fatalf("harness: bad view json: %v", err)
+			got, msg, runErr := runImport(exported)
+			skipClaims := false
+			if runErr != nil {
+				sig := c43AbortSignature(msg)
+				known := c.Violation(sig, "initialising a chain from the exported genesis aborted (%v): %s", runErr, msg)
+				if !known || sig != c43ClaimAbortSig {
+					return
+				}
+				// known finding: the import refuses exported claims. Continue behind it the way an operator would have to:
+				// drop the claims from the exported file and import the rest.
+				c.Label("import-retried-without-claims")
+				pg.Claims = nil
+				gs[pocketTypes.ModuleName] = app.Codec().MustMarshalJSON(pg)
+				stripped, err := app.Codec().MarshalJSON(gs)
+				if err != nil {
+					rt.Fatalf("harness: cannot re-marshal the genesis: %v", err)
+				}
+				got, msg, runErr = runImport(stripped)
+				if runErr != nil {
+					c.Violation(c43AbortSignature(msg), "initialising a chain from the exported genesis (claims removed) aborted (%v): %s", runErr, msg)
+					return
+				}
+				skipClaims = true
 			}
 			for _, cat := range []string{"params", "accounts", "supply", "nodes", "apps", "claims"} {
+				if cat == "claims" && skipClaims {
+					continue
+				}
 				if d := diffView(want[cat], got[cat]); d != "" {
 					sig := "C43/" + cat + "/differs-after-import"
 					switch {
